@@ -124,6 +124,11 @@ func buildTable(f tableFeat, g *docGen) string {
 	}
 	sb.WriteString(">")
 	switch f.Header {
+	case "th":
+		// an empty caption changes nothing: the header cells alone make it a data table
+		if r.Intn(3) == 0 {
+			sb.WriteString(pickS(r, "<caption></caption>", "<caption> </caption>", "<caption>\n\t</caption>"))
+		}
 	case "caption":
 		sb.WriteString("<caption>" + g.words(2) + "</caption>")
 	case "colgroup":
